@@ -470,8 +470,14 @@ def _legacy_backend(ctx, model):
            "it while its instances are frozen, so hash() -- and with it every == "
            "between two distinct instances -- raises FrozenInstanceError")
     mem = one("__ne__")
-    src = ast.unparse(mem.node.body[-1]).replace(" ", "")
-    ctx.ob("S/legacy/__ne__", src == "returnnotself.__eq__(other)",
+    from ..rules import sole_result
+    rv = sole_result(mem.node, plain=True)
+    o_ = ("param", mem.node.args.args[1].arg)
+    s_ = ("param", mem.node.args.args[0].arg)
+    ne_ok = rv is not None and rv[0] == "unop" and rv[1] == "Not" and \
+        rv[2][0] == "call" and rv[2][1].endswith(".__eq__") and \
+        rv[2][2] == (o_,) and len(rv[2]) >= 5 and rv[2][4][1] == s_
+    ctx.ob("S/legacy/__ne__", ne_ok,
            E.module.loc(mem.node), "__ne__ is the negation of __eq__")
 
 
